@@ -212,11 +212,13 @@ def run_case(seed, i, tier):
     n = rng.choice((1, 2, 3, 5, 8, 20, 60))
     raw, recs, pattern = gen_records(rng, name, n)
     cont = rng.choice(("plain", "plain", "plain", "gz", "bz2", "xz", "lz4", "tar"))
+    rts = [r["sec"] for r in recs] or [1_600_000_000]
+    mt_file, mt_in = world.mtime_around(rng, min(rts), max(rts)), world.mtime_around(rng, min(rts), max(rts))
     if cont == "tar":
-        stored = world.to_tar([(fname, raw, 1600000000)], rng.choice(("ustar", "gnu", "pax")))
+        stored = world.to_tar([(fname, raw, mt_in)], rng.choice(("ustar", "gnu", "pax")))
         path = "acc.tar"
     else:
-        stored, _ = world.random_container(rng, cont, raw, 1600000000, fname)
+        stored, _ = world.random_container(rng, cont, raw, mt_in, fname)
         path = fname + world.SUFFIX[cont]
     opts = ["--color", "never", "--tz-offset", "+00:00"]
     if rng.random() < 0.6:
@@ -234,7 +236,7 @@ def run_case(seed, i, tier):
         if b is not None:
             opts += ["-b", c03.fmt_bound(rng, b)]
     want = expected_order(recs, a, b)
-    files = [core.FileSpec(path, stored, 1600000000)]
+    files = [core.FileSpec(path, stored, mt_file)]
     argv = opts + [path]
     # optionally next to a text source (merge of different kinds; the text lines are ignored by the marker check)
     scn = core.Scenario(files, argv, None, "UTC")
